@@ -11,7 +11,12 @@
                                    Writer.Truncate (delete every row with blockNum >= n), FilterEvents / FilterTransfers,
                                    removeLeadingZeros / topicValue, NewestBlockID, HasBlockID
      logdb/types.go              : toWhereCondition (criteria)
-     cmd/thor/sync_logdb.go      : syncLogDB / seekLogDBSyncPosition (start-up resynchronisation)
+     cmd/thor/sync_logdb.go      : syncLogDB / seekLogDBSyncPosition (start-up resynchronisation: seek the first height whose
+                                   logs are missing or stale, truncate from there, re-write up to best; commits on the way
+                                   and when cancelled - ResyncCancelled)
+     logdb/sequence.go           : bounds of the packed key (SeqOK / WriteErr)
+   and the operating modes of the node: logs written (ImportBest, ImportSide), --skip-logs (StartSkipLogs / ImportSkipLogs: the repository
+   moves on and reorganises, the log db stays behind until the next start with logs), stopped (Crash / CrashMid).
 
    A block is an opaque value; the facts the rules leave open are parameters (parent, height, timestamp, receipts,
    byte order of ids).  In the model-checking configurations a block IS its path from genesis and its logs are a
